@@ -347,6 +347,13 @@ func runC20(r *core.Run) {
 	for mask := 1; mask < 1<<uint(len(du)); mask += 3 {
 		cases = append(cases, c05Case{Kind: "shard", Fanout: 8, Names: gen.SubsetOf(du, mask)})
 	}
+	// wide nodes: 1500 entries at fanout 256 (a root with 256 links, ~250 of them
+	// child shards) and at fanout 16 (three levels, 16 links per node)
+	var many []string
+	for i := 0; i < 1500; i++ {
+		many = append(many, fmt.Sprintf("entry-%04d.dat", i))
+	}
+	cases = append(cases, c05Case{Kind: "shard", Fanout: 256, Names: many}, c05Case{Kind: "shard", Fanout: 16, Names: many[:600]}, c05Case{Kind: "shard", Fanout: 256, Names: many[:300], Ref: true})
 	for _, t := range pathTrees(r.Quick()) {
 		t := t
 		cases = append(cases, c05Case{Kind: "path", Tree: &t})
